@@ -208,6 +208,17 @@ static void PutADR(Word Value) {
     }
 }
 
+/*!------------------------------------------------------------------------
+ * \fn     SetMotoADRTurn(Boolean Turn)
+ * \brief  byte order of ADR/FDB/WORD for a target that registers
+ *         DecodeMotoADR itself instead of going through DecodeMotoPseudo()
+ * \param  Turn True = MSB first
+ * ------------------------------------------------------------------------ */
+
+void SetMotoADRTurn(Boolean Turn) {
+    M16Turn = Turn;
+}
+
 void DecodeMotoADR(Word Index) {
     UNUSED(Index);
 
